@@ -80,6 +80,7 @@ pub struct Exec<const V: usize> {
     /// an allocation with allow_overcommit succeeded: the heap may legitimately exceed its size
     pub overcommitted: bool,
     pub overcommitted_bytes: usize,
+    pub sched: super::sched::SchedCheck,
 }
 
 macro_rules! cnt {
@@ -116,6 +117,10 @@ fn g_clear(gi: usize) {
 }
 
 pub fn build_mmtk<const V: usize>(case: &Case) -> &'static MMTK<ShadowVM<V>> {
+    // scheduler event log (cfg(mmtk_verif) hooks): installed before the instance exists so that no
+    // packet is added unobserved
+    g().events_enabled.store(true, Ordering::SeqCst);
+    mmtk::verif::events::set_sink(sched_sink);
     let mut builder = MMTKBuilder::new_no_env_vars();
     assert!(builder.set_option("plan", &case.plan), "bad plan {}", case.plan);
     assert!(builder.set_option("threads", &format!("{}", case.workers.max(1))));
@@ -200,6 +205,7 @@ impl<const V: usize> Exec<V> {
             alloc_call_seq: 0,
             overcommitted: false,
             overcommitted_bytes: 0,
+            sched: super::sched::SchedCheck::new(case.workers.max(1) as usize, case.plan == "ConcurrentImmix"),
             case,
         };
         let n = (e.case.mutators.max(1) as usize).min(MAX_MUTATORS);
@@ -539,7 +545,24 @@ impl<const V: usize> Exec<V> {
         }
     }
 
+    /// Feed the event log collected so far to the scheduler oracles (C11, C15, C16).
+    pub fn check_events(&mut self) {
+        let evs: Vec<Ev> = std::mem::take(&mut *g().events.lock().unwrap());
+        if evs.is_empty() {
+            return;
+        }
+        let bound: Vec<usize> = (0..MAX_MUTATORS).filter(|i| self.bound[*i]).collect();
+        self.sched.set_bound_mutators(bound);
+        for e in &evs {
+            if let Some(v) = self.sched.feed(e) {
+                self.violate(v.property, v.signature, v.detail);
+                return;
+            }
+        }
+    }
+
     fn after_possible_gc(&mut self) {
+        self.check_events();
         let r = g().resume_calls.load(Ordering::SeqCst);
         if r != self.last_resume {
             let n = r - self.last_resume;
